@@ -127,6 +127,30 @@ class VLoop(asyncio.BaseEventLoop):
             events._set_running_loop(old)
         return future.result()
 
+    def drain(self, max_rounds=200):
+        """after the awaited future is done: let callbacks that are already due run (e.g. tasks that were cancelled by the code
+        under test and must see their CancelledError in their own context), then cancel whatever is left and let that settle.
+        Virtual time does not advance."""
+        old = events._get_running_loop()
+        events._set_running_loop(self)
+        try:
+            for phase in (0, 1):
+                rounds = 0
+                while self._ready and rounds < max_rounds:
+                    rounds += 1
+                    for _ in range(len(self._ready)):
+                        hnd = self._ready.popleft()
+                        if not hnd._cancelled:
+                            hnd._run()
+                if phase == 0:
+                    left = [t for t in asyncio.all_tasks(self) if not t.done()]
+                    if not left:
+                        break
+                    for t in left:
+                        t.cancel()
+        finally:
+            events._set_running_loop(old)
+
     def run_forever(self):
         raise NotImplementedError
 
@@ -147,7 +171,10 @@ def run(coro, chooser=None, horizon=None, permute_ready=False):
     try:
         return loop.run_until_complete(coro), loop
     finally:
-        loop.close()
+        try:
+            loop.drain()
+        finally:
+            loop.close()
 
 
 def selftest():
